@@ -212,6 +212,57 @@ func valueHasType20(value, t string) bool {
 	return false
 }
 
+// scalObs20: what go-yaml v2 (through kyaml) says about one scalar text — compared with KV.Yaml.Resolve11.
+func scalObs20(v string) string {
+	ns := kyaml.IsValueNonString(v)
+	return fmt.Sprintf("(%s, (%s, (%s, (%s, %s))))", coqStr(v), coqBool(ns),
+		coqBool(ns && valueHasType20(v, "boolean")), coqBool(ns && valueHasType20(v, "integer")),
+		coqBool(ns && valueHasType20(v, "number")))
+}
+
+// scalarPool20: adversarial plain-scalar texts around the YAML 1.1 resolution rules (fixed part) plus
+// random strings over the characters of the modelled fragment.
+func scalarPool20(rng *Rng, nRandom int) string {
+	fixed := []string{"", "y", "Y", "yes", "Yes", "YES", "yEs", "n", "N", "no", "No", "NO", "nO", "true", "True", "TRUE", "tRUE",
+		"false", "False", "FALSE", "on", "On", "ON", "oN", "off", "Off", "OFF", "o", "t", "f", "~", "~x", "null", "Null", "NULL",
+		"nULL", "nil", ".nan", ".NaN", ".NAN", ".Nan", ".inf", ".Inf", ".INF", "+.inf", "-.inf", "-.INF", "+.Inf", ".infinity",
+		"inf", "nan", "NaN", "0", "00", "07", "08", "09", "010", "0o7", "0O7", "0o8", "0x", "0x1F", "0X1f", "0xG", "0b1", "0B101",
+		"0b2", "0b", "-0b11", "+0b1", "-0x1F", "+0x1F", "-010", "+010", "1", "-1", "+1", "+", "-", "--1", "++1", "1_000", "_1",
+		"1_", "1__0", "+_1", "0_7", "0_x1", "123456789012345678", "999999999999999999", "-99999999999999999",
+		"0xFFFFFFFFFFFFFFFF", "0x7FFFFFFFFFFFFFFF", "0o1777777777777777", "1.5", "1.", ".5", "-.5", "+.5", ".", "..", "...",
+		"...x", ".5.", "1.5.2", "1e3", "1E3", "1e+3", "1e-3", "1e", "e3", "1e3x", "1.e3", ".5e3", ".5e", ".e5", "1e99", "1e100",
+		".5e10", "9e99", "-9e99", "1_0.5", "1.5_0", ".5_0", "1e1_0", "12abc", "abc12", "a-b", "a.b", "a/b", "a+b", "a~b", "a_b",
+		"-x", "-.x", "-_x", "/x", "+x", "_", "__", "x", "web", "nginx", "v1", "apps/v1", "1.2.3", "1-2", "2001-01-01", "2001-1-1",
+		"2001-13-01", "12345-1", "123-4", "20010101", "1:30", "a b", "a: b", "- x", "[1]", "{a: 1}", "# c", "'1'", "\"1\"", "*x",
+		"&x", "!x", "|", ">", "%x", "@x", "`x", "x#y", "x #y", "<<", "=", "0.0.0.0", "1.0", "-0", "+0", "-0.0", "0e0", "0x0", "0o0",
+		"0b0", "00x1", "0xx1", "0x_1", "1e+", "1e-", "+.e1", "-.5e-2", "Yes1", "on1", "1on", "nULL1", ".inf1", ".nan.", "NO.", "y.",
+		"0777", "0778", "-0777", "-0778", "07_7", "1_2_3", "0o", "0oo7", "0b1_0", "0B_1", "1e0_1", "TRUE1", "True.", "~~", "~1"}
+	obs := []string{}
+	seen := map[string]bool{}
+	add := func(v string) {
+		if !seen[v] {
+			seen[v] = true
+			obs = append(obs, scalObs20(v))
+		}
+	}
+	for _, v := range fixed {
+		add(v)
+	}
+	alphabet := "0123456789" + "0123456789" + "_.+-eExXoObB" + "aAfFyYnNtT~/"
+	if v := os.Getenv("C20_POOL_N"); v != "" {
+		fmt.Sscan(v, &nRandom)
+	}
+	for i := 0; i < nRandom; i++ {
+		n := 1 + rng.Intn(7)
+		b := make([]byte, n)
+		for j := range b {
+			b[j] = alphabet[rng.Intn(len(alphabet))]
+		}
+		add(string(b))
+	}
+	return "(KScalars [" + strings.Join(obs, "; ") + "])"
+}
+
 // typeMeta20 reads kind / apiVersion the way FormatFilter.Filter does (first field of that name, its Value).
 func typeMeta20(n *kyaml.RNode) (kind, api string, ok bool) {
 	cls, _ := protect(func() error {
@@ -1415,9 +1466,13 @@ func runImpl20(c case20, withWritten bool) result20 {
 	if res.skipWhy != "" {
 		return res
 	}
-	res.term = fmt.Sprintf("(KDocs [%s] %s [%s] %s %s %s %s %s)", strings.Join(docs, "; "), coqStrList(nonstr),
+	scal := []string{}
+	for _, v := range sortedKeys(vals) {
+		scal = append(scal, scalObs20(v))
+	}
+	res.term = fmt.Sprintf("(KDocs [%s] %s [%s] %s %s %s %s %s [%s])", strings.Join(docs, "; "), coqStrList(nonstr),
 		strings.Join(hastype, "; "), cls, outTerm, written,
-		coqStrList(dcIn), coqStrList(dcOut))
+		coqStrList(dcIn), coqStrList(dcOut), strings.Join(scal, "; "))
 	res.ok = true
 	return res
 }
@@ -1610,6 +1665,11 @@ func runC20(r *Run, rng *Rng, tier string) error {
 	rng = rng.Fork().Fork()
 	r.shard = 30 // case terms are large (three node trees with comments per case): many small shards, evaluated in parallel
 	r.AddCase(tableCase20(), map[string]string{"kind": "table"}, true)
+	nPool := 400
+	if tier == "thorough" {
+		nPool = 8000
+	}
+	r.AddCase(scalarPool20(rng.Fork(), nPool), map[string]string{"kind": "scalar-resolution-pool"}, true)
 	for _, c := range loadCorpus20() {
 		runOne20(r, c, true, "corpus")
 	}
